@@ -109,6 +109,8 @@ func RandomSpec(r *sim.Rand) DocSpec {
 	}
 	sp.FormXObj = on(density / 2)
 	sp.StdWidths = on(density / 2)
+	sp.BlankPages = on(density / 2)
+	sp.Headings = on(density)
 	return sp
 }
 
@@ -173,6 +175,8 @@ func (sp DocSpec) Features() []string {
 	add(sp.TextOps >= 2, "textops=mixed")
 	add(sp.FormXObj, "form-xobject")
 	add(sp.StdWidths, "std-widths")
+	add(sp.BlankPages, "blank-pages")
+	add(sp.Headings, "headings")
 	add(sp.Revisions > 0, "revisions")
 	for _, op := range sp.RevOps {
 		add(true, fmt.Sprintf("revop=%d", op))
@@ -689,6 +693,11 @@ func SpecWithFeatures(features []string) (DocSpec, bool) {
 			sp.TextOps = 2
 		case f == "std-widths":
 			sp.StdWidths = true
+		case f == "blank-pages":
+			sp.BlankPages = true
+			sp.Pages = 4
+		case f == "headings":
+			sp.Headings = true
 		case f == "form-xobject":
 			sp.FormXObj = true
 			sp.Lines = 4
@@ -823,6 +832,10 @@ func (sp DocSpec) Without(f string) DocSpec {
 		c.TextOps = 0
 	case f == "std-widths":
 		c.StdWidths = false
+	case f == "blank-pages":
+		c.BlankPages = false
+	case f == "headings":
+		c.Headings = false
 	case f == "form-xobject":
 		c.FormXObj = false
 	case f == "revisions":
